@@ -55,6 +55,11 @@ def getitem(e, idx):
     return ("getitem", e, idx)
 
 
+def getitem_at(e, idx, offset):
+    """e[:, ..., idx] : index the event dim number `offset` (funsor's GetitemOp(offset))"""
+    return ("getitem_at", e, idx, offset)
+
+
 def getslice(e, index):
     return ("getslice", e, index)
 
@@ -199,6 +204,13 @@ def type_of(e):
         if not sa or si != () or di == "real":
             raise IllTyped("getitem")
         return _merge(ia, ii), (da, sa[1:])
+    if tag == "getitem_at":
+        _, a, idx, off = e
+        ia, (da, sa) = type_of(a)
+        ii, (di, si) = type_of(idx)
+        if len(sa) <= off or si != () or di == "real":
+            raise IllTyped("getitem_at")
+        return _merge(ia, ii), (da, tuple(sa[:off]) + tuple(sa[off + 1:]))
     if tag == "getslice":
         _, a, index = e
         ia, (da, sa) = type_of(a)
@@ -334,6 +346,8 @@ def show(e):
         return "Slice(%s,%d,%d,%d,%d)" % e[1:]
     if tag == "getitem":
         return "%s[%s]" % (show(e[1]), show(e[2]))
+    if tag == "getitem_at":
+        return "%s[%s%s]" % (show(e[1]), ":," * e[3], show(e[2]))
     if tag == "getslice":
         return "%s[%r]" % (show(e[1]), e[2])
     if tag == "lambda":
